@@ -12,7 +12,7 @@ import (
 func init() {
 	Registry["C08"] = C08
 	Metas["C08"] = Meta{
-		Explanation: "Decides the counter-pairing clauses of C08 on every path: (S1) in the compute core, under each mode, a path that clears a slot performs exactly one counter update of -1, a path that fills an empty slot or links a new bucket exactly one of +1, a path that replaces a value or changes nothing performs none; the delta is a constant and the update goes, atomically, to the very table the attempt validated and modified; (S2) the resize copy returns a count incremented once per appended entry and nowhere else, resize adds it once per source bucket to the new, still unpublished table, and the clear hint copies nothing into a fresh zero-count table; (S3) Size sums every stripe of the currently published table and Count is the map's Size; (S4) no counter update exists outside the functions analysed by S1/S2. NOT decided: exactness over concurrent histories (it follows from S1+S2 together with the protocol shape of C03/C04, whose structural parts are decided there).",
+		Explanation: "Decides the counter-pairing clauses of C08 on every path: (S1) in the compute core, under each mode, a path that clears a slot performs exactly one counter update of -1, a path that fills an empty slot or links a new bucket exactly one of +1, a path that replaces a value or changes nothing performs none; the delta is a constant and the update goes, atomically, to the very table the attempt validated and modified; (S2) the resize copy returns a count incremented once per appended entry and nowhere else, resize adds it once per source bucket to the new, still unpublished table, and the clear hint copies nothing into a fresh zero-count table; (S3) Size sums every stripe of the currently published table and Count is the map's Size; (S4) no counter update exists outside the functions analysed by S1/S2; (S5) a Clear request cannot be dropped (restated from C03/C04.P7), so Count is 0 right after Clear. NOT decided: exactness over concurrent histories (it follows from S1+S2 together with the protocol shape of C03/C04, whose structural parts are decided there).",
 		Rule:        "one obligation per (rule, specialisation, exit | block | call site); non-trivial = decided from explored product-graph paths or resolved call sites",
 		Assumptions: []string{"C03/C04 protocol shape (writers validated on the table they modify; copy under the bucket lock)", "sync/atomic.AddInt64 is atomic"},
 	}
@@ -27,6 +27,10 @@ func C08(r *Run) *core.Report {
 	c08S2(r, rep)
 	c08S3(r, rep)
 	c08S4(r, rep)
+	// S5: 'Count is 0 right after Clear' additionally needs that a Clear request cannot be dropped (restated premise)
+	n := borrow(rep, mapProtocol(r, "C03", 0), "C08.S5", "C03.P7")
+	n += borrow(rep, mapProtocol(r, "C04", 1), "C08.S5", "C04.P7")
+	rep.MinCount("C08.S5", "premise obligations (Clear acts)", n, 4)
 	return rep
 }
 
